@@ -67,6 +67,12 @@ def getWithPathNS : Node → Path → Option (Node × Path)
       | some r => (getWithPathNS n r).map fun x => (x.1, k ++ x.2)
       | none => if (stripPre p k).isSome then some (n, k) else none
 
+/-- trie.go:626: `from == nil || !bytes.Equal(pathToNode, from)`. -/
+def notFrom (frm : Option Path) (q : Path) : Bool :=
+  match frm with
+  | none => true
+  | some fr => q != fr
+
 /-- trie.go:582-638 `Find(prefix, from, maxNum)` on nibble paths; `frm = none` is `from == nil`.
 Result paths are relative to the prefix; `none` = error. -/
 def find (t : Node) (pre : Path) (frm : Option Path) (maxNum : Nat) : Option (List (Path × Val)) :=
@@ -76,10 +82,7 @@ def find (t : Node) (pre : Path) (frm : Option Path) (maxNum : Nat) : Option (Li
     let path := full.drop pre.length
     let fromP := frm.getD []
     let go (f : Path) : Option (List (Path × Val)) :=
-      some (((traverse false start path f).filter fun e =>
-        match frm with
-        | none => true
-        | some fr => e.1 != fr).take maxNum)
+      some (((traverse false start path f).filter fun e => notFrom frm e.1).take maxNum)
     if fromP = [] then go []
     else if path.length ≤ fromP.length ∧ isPre path fromP then go (fromP.drop path.length)
     else if path.length > fromP.length ∧ isPre fromP path then go []
@@ -97,5 +100,40 @@ def seek (t : Node) (pre fromP : Path) (back : Bool) : List (Path × Val) :=
     else if path.length > fromP.length ∧ isPre fromP path then traverse back start path []
     else if (pathLt fromP path) == back then []          -- `cmp > 0 == rng.Backwards`
     else traverse back start path []
+
+end NeoModel.Mpt
+
+/-! ### Specification of the ordered traversals -/
+namespace NeoModel.Mpt
+
+/-- the contents of a trie as a list, in ascending key order (`entries_sorted`, `mem_entries`). -/
+def entries : Node → List (Path × Val)
+  | .empty => []
+  | .leaf v => [([], v)]
+  | .ext k n => (entries n).map fun e => (k ++ e.1, e.2)
+  | .branch cs v =>
+    (match v with
+     | some w => [([], w)]
+     | none => []) ++
+    (List.finRange 16).flatMap fun i => (entries (cs i)).map fun e => (i :: e.1, e.2)
+
+/-- the range selected by a start position: forwards the keys `≥ frm`; backwards the keys `≤ frm`
+and the keys that extend `frm` (what every `storage.Store` backend returns for a backward seek from
+`Start`, memory_store.go:111-116, store.go seekRangeToPrefixes). `frm = []` selects everything. -/
+def inRange (back : Bool) (frm q : Path) : Bool :=
+  if back then !pathLt frm q || isPre frm q else !pathLt q frm
+
+/-- the entries whose key starts with `pre`, keys relative to `pre`, ascending. -/
+def under (t : Node) (pre : Path) : List (Path × Val) :=
+  (entries t).filterMap fun e => (stripPre pre e.1).map fun r => (r, e.2)
+
+/-- the keys strictly after `frm` (all keys if there is no `frm`). -/
+def after (frm : Option Path) (q : Path) : Bool :=
+  match frm with
+  | none => true
+  | some f => pathLt f q
+
+/-- direction of the result. -/
+def dir {α} (back : Bool) (l : List α) : List α := if back then l.reverse else l
 
 end NeoModel.Mpt
